@@ -109,6 +109,12 @@ type handlerRef struct {
 
 // followToRoute follows a handler value to the mux registration it ends in.
 func followToRoute(v ssa.Value) (wrappers []string, reg *ssa.Call, why string) {
+	return followToRouteFrom(v, nil)
+}
+
+// followToRouteFrom: like followToRoute, but the first step follows only the given use of v (a
+// handler value kept in a local and used for several registrations is one reference per use).
+func followToRouteFrom(v ssa.Value, firstUse ssa.Instruction) (wrappers []string, reg *ssa.Call, why string) {
 	cur := v
 	for i := 0; i < 12; i++ {
 		if cur.Referrers() == nil {
@@ -117,7 +123,11 @@ func followToRoute(v ssa.Value) (wrappers []string, reg *ssa.Call, why string) {
 		var next ssa.Value
 		var regCall *ssa.Call
 		n := 0
-		for _, r := range *cur.Referrers() {
+		refs := *cur.Referrers()
+		if i == 0 && firstUse != nil {
+			refs = []ssa.Instruction{firstUse}
+		}
+		for _, r := range refs {
 			switch x := r.(type) {
 			case *ssa.DebugRef:
 			case *ssa.ChangeType:
@@ -190,18 +200,10 @@ func c05HandlerRefs(c *Ctx) {
 	}
 	for _, fn := range scope {
 		fn := fn
-		eachInstr(fn, func(in ssa.Instruction) {
-			mc, ok := in.(*ssa.MakeClosure)
-			if !ok {
-				return
-			}
-			f := mc.Fn.(*ssa.Function)
-			if f.Synthetic == "" || !strings.HasPrefix(f.Name(), "HandleGatewayProtocol$bound") {
-				return
-			}
+		handleRef := func(mc *ssa.MakeClosure, firstUse ssa.Instruction) {
 			n++
 			key := fmt.Sprintf("main gateway-ref#%d", n)
-			wrappers, reg, why := followToRoute(mc)
+			wrappers, reg, why := followToRouteFrom(mc, firstUse)
 			if reg == nil {
 				c.Bad(rule, key, mc.Pos(), "cannot follow this reference to the gateway handler to a route registration: %s", why)
 				return
@@ -279,6 +281,29 @@ func c05HandlerRefs(c *Ctx) {
 				ok, whyg := c.mustPassUp(fn, reg, GTrue(mainEnabled(m.enabled)), 0)
 				c.Check(ok, rule, k+" "+m.name+" switch", reg.Pos(), "registered only when "+m.enabled+"()", "the "+m.name+" route is "+whyg+" of "+m.enabled+"(): a disabled mechanism's credentials are accepted")
 			}
+		}
+		eachInstr(fn, func(in ssa.Instruction) {
+			mc, ok := in.(*ssa.MakeClosure)
+			if !ok {
+				return
+			}
+			f := mc.Fn.(*ssa.Function)
+			if f.Synthetic == "" || !strings.HasPrefix(f.Name(), "HandleGatewayProtocol$bound") {
+				return
+			}
+			var uses []ssa.Instruction
+			for _, r := range *mc.Referrers() {
+				if _, isDbg := r.(*ssa.DebugRef); !isDbg {
+					uses = append(uses, r)
+				}
+			}
+			if len(uses) > 1 {
+				for _, u := range uses {
+					handleRef(mc, u)
+				}
+				return
+			}
+			handleRef(mc, nil)
 		})
 	}
 	if n < 5 {
